@@ -144,5 +144,54 @@ func main() {
 			})
 			e.Strs("parseFilterSteps", steps, "search.tryParseFieldsFilter: statements in source order (logging dropped)")
 		}
-	}, "storeapi/grpc_fetch.go", "proxy/search/ingestor.go")
+		// ---- keyword recognition of the pipe parser: case-insensitive, never a quoted token
+		if h, err := r.Load("parser/seqql_pipes.go"); err != nil {
+			e.Missing("seqql_pipes.go", err)
+		} else {
+			for _, fn := range []struct{ name, lean string }{{"parsePipes", "parsePipesConds"}, {"parsePipeFields", "parsePipeFieldsConds"}, {"parseFieldList", "parseFieldListConds"}} {
+				fd := h.Func("", fn.name)
+				if fd == nil {
+					e.Missing(fn.lean, fn.name+" not found")
+					continue
+				}
+				var conds []string
+				ast.Inspect(fd.Body, func(n ast.Node) bool {
+					switch x := n.(type) {
+					case *ast.IfStmt:
+						conds = append(conds, "if "+h.Render(x.Cond))
+					case *ast.ForStmt:
+						if x.Cond != nil {
+							conds = append(conds, "for "+h.Render(x.Cond))
+						}
+					case *ast.CaseClause:
+						for _, c := range x.List {
+							conds = append(conds, "case "+h.Render(c))
+						}
+					case *ast.AssignStmt:
+						if t := h.Render(x); strings.Contains(t, "lex.Token") || strings.HasPrefix(t, "except") {
+							conds = append(conds, t)
+						}
+					}
+					return true
+				})
+				e.Strs(fn.lean, conds, "parser."+fn.name+": conditions (and assignments reading the token) in source order")
+			}
+		}
+		if h, err := r.Load("parser/seqql.go"); err != nil {
+			e.Missing("seqql.go", err)
+		} else {
+			for _, fn := range []struct{ name, lean string }{{"IsKeyword", "isKeywordStmts"}, {"IsKeywords", "isKeywordsStmts"}} {
+				fd := h.Func("lexer", fn.name)
+				if fd == nil {
+					e.Missing(fn.lean, fn.name+" not found")
+					continue
+				}
+				var stmts []string
+				for _, st := range fd.Body.List {
+					stmts = append(stmts, h.Render(st))
+				}
+				e.Strs(fn.lean, stmts, "parser.lexer."+fn.name+": statements")
+			}
+		}
+	}, "storeapi/grpc_fetch.go", "proxy/search/ingestor.go", "parser/seqql_pipes.go", "parser/seqql.go")
 }
